@@ -73,6 +73,12 @@ class NetInterp:
                 v = self.value(a, env, fn)
                 if v[0] == "it":
                     return ("it", v[1] + (cb if n["op"] == "+" else -cb))
+        if "callee" in n and n["callee"]["name"] in ("next", "prev") and kids(n):
+            args = [a for a in kids(n) if a is not None and a["k"] != "DefaultArg"]
+            step = 1 if len(args) == 1 else const_int(args[1])
+            v = self.value(args[0], env, fn)
+            if step is not None and v[0] == "it" and v[1] is not None:
+                return ("it", v[1] + (step if n["callee"]["name"] == "next" else -step))
         if k == "ArraySubscriptExpr" or ("callee" in n and n.get("op") == "[]"):
             a, b = kids(n)
             cb = const_int(b)
